@@ -58,6 +58,7 @@ class Splitter:
         self.mode = mode          # 'nosp' | 'sp'
         self.maxdepth = maxdepth
         self.files = []           # (path relative to the case dir, content)
+        self.envs = []            # (variable, value) the text relies on
         self.n = 0
         self.deepest = 0
 
@@ -88,9 +89,16 @@ class Splitter:
                 k = self.n
                 name, path = self.name_for(k)
                 content = self.split(items[i:i + run], depth + 1, p)
-                self.files.append((path, '\n'.join(content) + '\n'))
-                q = self.rng.choice(['"%s"', "'%s'", '%s']) if not any(c in name for c in ' @') else '"%s"'
-                out.append('include(%s)' % (q % name))
+                tail = self.rng.choice(['\n', '\n', '', ' # last line, no newline', '\n/* ends in a comment */', '\n\n\n', ' // eof'])
+                self.files.append((path, '\n'.join(content) + tail))
+                r = self.rng.random()
+                if r < 0.12 and ' ' not in name and '@' not in name:
+                    # the name comes from the environment (the driver sets VERIF_INC_<k>)
+                    self.envs.append(('VERIF_INC_%d' % k, name))
+                    out.append('include(${VERIF_INC_%d})' % k if self.rng.random() < 0.5 else 'include("${VERIF_INC_%d}")' % k)
+                else:
+                    q = self.rng.choice(['"%s"', "'%s'", '%s']) if not any(c in name for c in ' @') else '"%s"'
+                    out.append('include(%s)' % (q % name))
                 i += run
             else:
                 it = items[i]
@@ -128,7 +136,8 @@ def gen_split_case(rng, idx):
         return {'kind': 'split', 'mode': mode, 'top': '\n'.join(top) + '\n', 'flat': flat_text, 'files': sp.files, 'depth': depth, 'dir': 'c%d' % idx}
     sp = Splitter(rng, mode, rng.randint(1, 4))
     top = sp.split(items, 0, rng.choice([0.3, 0.5, 0.8]))
-    return {'kind': 'split', 'mode': mode, 'top': '\n'.join(top) + '\n', 'flat': '\n'.join(flat(items)) + '\n', 'files': sp.files, 'depth': sp.deepest, 'dir': 'c%d' % idx}
+    return {'kind': 'split', 'mode': mode, 'top': '\n'.join(top) + '\n', 'flat': '\n'.join(flat(items)) + '\n', 'files': sp.files, 'depth': sp.deepest, 'dir': 'c%d' % idx,
+            'envs': sp.envs}
 
 
 def gen_pos_case(rng, idx):
@@ -202,6 +211,8 @@ def script(spec):
             if path.startswith('sp2/') and zlib.crc32(path.encode()) % 2:
                 L.append('mkdir %s' % hx(d + '/sp1/' + path[4:]))     # a directory of the same name in the directory searched first
         L.append('chdir %s' % hx(d))
+        for var, val in spec.get('envs', []):
+            L.append('setenv %s %s' % (hx(var), hx(val)))
         L += lines
         L.append('init 0 %d 0' % sid)
         if spec['mode'] == 'sp':
